@@ -132,7 +132,16 @@ class LabReplay:
 
     # ---- executing one event ----------------------------------------------------------------------------
     def arg(self, objs, n, r):
-        sl = self.arg0(objs, n, r)
+        # a slice is taken once per plate object and region and then kept, as a user keeps `controls = plate['A', :]`: every
+        # operation that leaves a stored state through that region is handed the SAME slice object (it must still mean the same)
+        cache = self.__dict__.setdefault("slice_cache", {})
+        ck = (id(objs[n]), r)
+        if ck in cache and cache[ck][0] is objs[n]:
+            sl = cache[ck][1]
+        else:
+            sl = self.arg0(objs, n, r)
+            if isinstance(sl, self.pp.PlateSlicer):
+                cache[ck] = (objs[n], sl)
         if isinstance(sl, self.pp.PlateSlicer):
             # every other slice is looked at before it is used, as a user inspecting it would (cached views must not matter)
             self.looked = not getattr(self, "looked", False)
